@@ -294,7 +294,9 @@ func TestC06(t *testing.T) {
 			}
 			return
 		}
-		sweep(rec)
+		if hx.FirstShard() {
+			sweep(rec)
+		}
 		hx.RapidCheck(t, rec, "files", func(rt *rapid.T, fail func(string, string, any)) {
 			fs := gen.GenFile(gen.D{T: rt}, gen.DefaultFileOpts())
 			labels := map[string]int{}
